@@ -115,6 +115,8 @@ def generate(rng, tier):
         coords = [es, ns] + ([B.values(rng, npts)] if rng.random() < 0.35 else [])
         ncomp = rng.choice([1, 1, 2, 3])
         data = [B.values(rng, npts) for _ in range(ncomp)]
+        if rng.random() < 0.2:
+            data = [[float(rng.randint(-40, 400)) for _ in range(npts)] for _ in range(ncomp)]      # counts / integer-coded readings (handed over as integers, see impl)
         weighted = rng.random() < 0.35
         red = "average" if weighted else rng.choice(list(REDS))
         weights = [B.pos_weights(rng, npts) for _ in range(ncomp)] if weighted else None
@@ -141,6 +143,10 @@ def impl(case):
     cs = tuple(C.mkarr(c, shape2d, f"{key}c{i}") for i, c in enumerate(coords))
     ds = tuple(C.mkarr(d, shape2d, f"{key}d{i}") for i, d in enumerate(data))
     ws = None if weights is None else tuple(C.mkarr(w, shape2d, f"{key}w{i}") for i, w in enumerate(weights))
+    # counts / integer-coded readings keep their integer dtype, component by component (the weights stay what they are: fractional weights of
+    # integer data)
+    ds = tuple(np.asarray(d).astype("int64" if (len(data[0]) + i) % 2 else "int32") if all(float(v).is_integer() for v in data[i]) else d
+               for i, d in enumerate(ds))
     for a in cs + ds + (ws or ()):
         a.setflags(write=False)
     if len(case["op"]) % 3 == 0:
